@@ -263,7 +263,7 @@ def runner_keying(ctx: Ctx):
                      construct='no-registration')
 
 
-@rule('C10.EXC-TO-FAILURE', ['C10'], min_instances=3)
+@rule('C10.EXC-TO-FAILURE', ['C10', 'C12'], min_instances=3)
 def exc_to_failure(ctx: Ctx):
     """Every runner converts any exception of the task into a yielded failure (handler for
     BaseException that yields (task, ex)); the child ships any BaseException back."""
@@ -304,7 +304,7 @@ def exc_to_failure(ctx: Ctx):
                  '' if ok else 'the subprocess target does not put (future_id, ex) for every BaseException', construct='child-ships')
 
 
-@rule('C10.SUCCESS-ONLY-STORES', ['C10'], min_instances=3)
+@rule('C10.SUCCESS-ONLY-STORES', ['C10', 'C12'], min_instances=3)
 def success_only_stores(ctx: Ctx):
     """Result maps are stored only on the non-exception path; nothing swallows an exception between
     run() and Cache.save()."""
